@@ -392,6 +392,12 @@ func validateInitialFlight(payloads [][]byte, budgets []InitialDatagramBudget, c
 		if budget > 0 && len(uPayload) > budget {
 			return fmt.Errorf("uquic: BuildFlight: Initial datagram %d is %d bytes of frames, %d more than fits in the packet", i, len(uPayload), len(uPayload)-budget)
 		}
+		// The payload goes on the wire exactly as returned, so it has to be what a peer can
+		// parse. clienthellod's reader is lenient (and allocates whatever length a CRYPTO frame
+		// announces), so check the encoding strictly first.
+		if err := checkInitialFlightFrames(uPayload); err != nil {
+			return fmt.Errorf("uquic: BuildFlight: Initial datagram %d does not parse as QUIC frames: %w", i, err)
+		}
 		frames, err := clienthellod.ReadAllFrames(bytes.NewReader(uPayload))
 		if err != nil {
 			return fmt.Errorf("uquic: BuildFlight: Initial datagram %d does not parse as QUIC frames: %w", i, err)
@@ -412,6 +418,37 @@ func validateInitialFlight(payloads [][]byte, budgets []InitialDatagramBudget, c
 	for i, ok := range sent {
 		if !ok {
 			return fmt.Errorf("uquic: BuildFlight: no Initial datagram carries CRYPTO byte %d of %d, so the ClientHello could never be reassembled", i, cryptoLen)
+		}
+	}
+	return nil
+}
+
+// checkInitialFlightFrames reports whether b is a well-formed sequence of the frames an
+// Initial flight payload may consist of: PADDING, PING and CRYPTO, each with its type in
+// the one-byte encoding (RFC 9000, Section 12.4), every CRYPTO frame complete. [UQUIC]
+func checkInitialFlightFrames(b []byte) error {
+	for len(b) > 0 {
+		typ := b[0]
+		b = b[1:]
+		switch typ {
+		case 0x00, 0x01: // PADDING, PING
+		case 0x06: // CRYPTO
+			_, n, err := quicvarint.Parse(b)
+			if err != nil {
+				return errors.New("truncated CRYPTO frame offset")
+			}
+			b = b[n:]
+			length, n, err := quicvarint.Parse(b)
+			if err != nil {
+				return errors.New("truncated CRYPTO frame length")
+			}
+			b = b[n:]
+			if length > uint64(len(b)) {
+				return fmt.Errorf("CRYPTO frame announces %d bytes of data, %d present", length, len(b))
+			}
+			b = b[length:]
+		default:
+			return fmt.Errorf("frame type 0x%02x is not PADDING, PING or CRYPTO", typ)
 		}
 	}
 	return nil
